@@ -139,7 +139,7 @@ def run(rep, tier, seed):
     rep.encoded_lisp("src/basilisp/core.lpy", ["lazy-seq", "map", "filter", "concat", "iterate", "take", "range", "seq"], "compiled from source, executed under CrossHair")
     kinds = ["lazy-seq", "map", "filter-map", "concat", "concat-2-2", "mapcat", "lazy-cat", "iterate", "py-iterable"]
     nops = 3 if quick else 4
-    to = 90 if quick else 300
+    to = 90 if quick else 200
     specs = []
     for k in kinds:
         nmax = 4 if k in ("concat-2-2", "mapcat", "lazy-cat") else 3
